@@ -172,6 +172,14 @@ theorem sameAux_spanStep (rb : RB) (line col len : Int) (f : Cell → Cell) :
     SameAux ((makeSpan rb line col len).updCell line col f) rb :=
   (sameAux_updCell _ _ _ _).trans (sameAux_makeSpan _ _ _ _)
 
+theorem flags_spanStep {rb : RB} (hwf : WF rb) (line col len : Int) (f : Cell → Cell)
+    (hl0 : 0 ≤ line) (hl1 : line < rb.lines) (hc0 : 0 ≤ col) (h1 : 1 ≤ len) (hcn : col + len ≤ rb.cols) :
+    ((makeSpan rb line col len).updCell line col f).aborted = rb.aborted ∧
+    ((makeSpan rb line col len).updCell line col f).fuelOut = rb.fuelOut := by
+  refine ⟨?_, rfl⟩
+  show (rb.aborted || makeSpanAborts rb.cols (rb.cells line) col len) = rb.aborted
+  rw [makeSpanAborts_false (hwf.rows line hl0 hl1) col len hc0 h1 hcn, Bool.or_false]
+
 theorem wf_spanStep {rb : RB} (hwf : WF rb) (line col len : Int) (f : Cell → Cell) (hf : FillOK f len)
     (hl0 : 0 ≤ line) (hl1 : line < rb.lines) (hc0 : 0 ≤ col) (h1 : 1 ≤ len) (hcn : col + len ≤ rb.cols)
     (hm : ∀ c, col ≤ c → c < col + len → ((rb.cells line).get c).maskdepth = -1) :
@@ -232,11 +240,12 @@ structure PlaceSpec (cnt : Int → Content) (rb rb' : RB) (line col cols startco
       else rowContent (rb.cells line) c
   heads : ∀ c, 0 ≤ c → c < rb.cols → ¬ (col ≤ c ∧ c < col + cols) → ((rb.cells line).get c).state ≠ .cont →
       ((rb'.cells line).get c).state ≠ .cont
+  flags : rb'.aborted = rb.aborted ∧ rb'.fuelOut = rb.fuelOut
 
 theorem placeSpec_same {cnt : Int → Content} {rb : RB} (hwf : WF rb) (line col cols sc : Int)
     (h : ∀ c, col ≤ c → c < col + cols → ((rb.cells line).get c).maskdepth ≠ -1) :
     PlaceSpec cnt rb rb line col cols sc := by
-  refine ⟨SameAux.refl, hwf, fun _ _ => rfl, fun _ _ _ => rfl, fun c _ _ => ?_, fun _ _ _ _ h => h⟩
+  refine ⟨SameAux.refl, hwf, fun _ _ => rfl, fun _ _ _ => rfl, fun c _ _ => ?_, fun _ _ _ _ h => h, ⟨rfl, rfl⟩⟩
   have : ¬ (col ≤ c ∧ c < col + cols ∧ ((rb.cells line).get c).maskdepth = -1) := fun hh => h c hh.1 hh.2.1 hh.2.2
   simp only [this, if_false]
 
@@ -297,7 +306,9 @@ theorem placeRuns_spec {fill : Cell → Int → Cell} {cnt : Int → Content} (h
           (by rw [haux1.lines]; exact hl1) (by omega) (by omega) (by rw [haux1.cols]; omega) (by omega)
         have hc1 : ∀ c : Int, c < rb.cols → c < ((makeSpan rb line (col + (m : Int)) (u : Int)).updCell line (col + (m : Int)) (fun c => fill c (sc + (m : Int)))).cols :=
           fun c h => by rw [haux1.cols]; exact h
-        refine ⟨hrec.aux.trans haux1, hrec.wf, ?_, ?_, ?_, ?_⟩
+        have hfl1 := flags_spanStep hwf line (col + (m : Int)) (u : Int) (fun c => fill c (sc + (m : Int)))
+          hl0 hl1 (by omega) (by omega) (by omega)
+        refine ⟨hrec.aux.trans haux1, hrec.wf, ?_, ?_, ?_, ?_, ⟨hrec.flags.1.trans hfl1.1, hrec.flags.2.trans hfl1.2⟩⟩
         · intro l hl; rw [hrec.others l hl, hcells.2 l hl]
         · intro c h0 h1; rw [hrec.mask c h0 (hc1 c h1), hwf1.2 c h0 h1]
         · intro c h0 h1
@@ -350,10 +361,11 @@ structure DrawSpec (rb rb' : RB) (L0 C0 n : Int) (newc : Int → Content → Con
     if L = L0 ∧ C0 ≤ C ∧ C < C0 + n ∧ writable rb L C = true then newc C (absContent rb L C) else absContent rb L C
   heads : ∀ l c, 0 ≤ l → l < rb.lines → 0 ≤ c → c < rb.cols → ¬ (l = L0 ∧ C0 ≤ c ∧ c < C0 + n) →
     ((rb.cells l).get c).state ≠ .cont → ((rb'.cells l).get c).state ≠ .cont
+  flags : rb'.aborted = rb.aborted ∧ rb'.fuelOut = rb.fuelOut
 
 theorem drawSpec_refl {rb : RB} (hwf : WF rb) (L0 C0 n : Int) (newc : Int → Content → Content)
     (h : ∀ C, C0 ≤ C → C < C0 + n → writable rb L0 C = false) : DrawSpec rb rb L0 C0 n newc := by
-  refine ⟨SameAux.refl, hwf, fun _ _ _ _ _ _ => rfl, fun L C => ?_, fun _ _ _ _ _ _ _ h => h⟩
+  refine ⟨SameAux.refl, hwf, fun _ _ _ _ _ _ => rfl, fun L C => ?_, fun _ _ _ _ _ _ _ h => h, ⟨rfl, rfl⟩⟩
   by_cases hc : L = L0 ∧ C0 ≤ C ∧ C < C0 + n ∧ writable rb L C = true
   · have := h C hc.2.1 hc.2.2.1
     rw [hc.1] at hc; rw [this] at hc; simp at hc
@@ -406,7 +418,7 @@ theorem runOp_spec {fill : Cell → Int → Cell} {cnt : Int → Content} (hfill
       omega
     · have hp := placeRuns_spec hfill r.line (r.cols.toNat + 1) rb r.col r.cols (scOf r) hwf hl0 hl1
         (by omega) (by omega) (by omega) (by omega)
-      refine ⟨hp.aux, hp.wf, ?_, ?_, ?_⟩
+      refine ⟨hp.aux, hp.wf, ?_, ?_, ?_, hp.flags⟩
       · intro l c h0 h1 h2 h3
         by_cases hl : l = r.line
         · subst hl; exact hp.mask c h2 h3
@@ -491,9 +503,10 @@ theorem updCell_get (rb : RB) (l c : Int) (f : Cell → Cell) (l' c' : Int) :
 /-- A specification only looks at the cells and the auxiliary state. -/
 theorem DrawSpec.congr {rb rb1 rb2 : RB} {L0 C0 n : Int} {newc : Int → Content → Content}
     (h : DrawSpec rb rb1 L0 C0 n newc) (ha : SameAux rb2 rb1)
-    (hc : ∀ l c, (rb2.cells l).get c = (rb1.cells l).get c) : DrawSpec rb rb2 L0 C0 n newc := by
+    (hc : ∀ l c, (rb2.cells l).get c = (rb1.cells l).get c)
+    (hf : rb2.aborted = rb1.aborted ∧ rb2.fuelOut = rb1.fuelOut) : DrawSpec rb rb2 L0 C0 n newc := by
   have hrow : ∀ l, rb2.cells l = rb1.cells l := fun l => Row.ext' (hc l)
-  refine ⟨ha.trans h.aux, ⟨?_, ?_, ?_⟩, ?_, ?_, ?_⟩
+  refine ⟨ha.trans h.aux, ⟨?_, ?_, ?_⟩, ?_, ?_, ?_, ⟨hf.1.trans h.flags.1, hf.2.trans h.flags.2⟩⟩
   · intro l h0 h1; rw [hrow l, ha.cols]; exact h.wf.rows l h0 (by rw [← ha.lines]; exact h1)
   · intro l c h0 h1 h2 h3; rw [hrow l, ha.depth]; exact h.wf.mask l c h0 (by rw [← ha.lines]; exact h1) h2 (by rw [← ha.cols]; exact h3)
   · rw [ha.clip, ha.lines, ha.cols]; exact h.wf.clip
@@ -538,7 +551,7 @@ theorem span1_spec {rb : RB} (hwf : WF rb) (line col : Int) {r : Clipped} (hx : 
   have hwf1 := wf_spanStep hwf r.line r.col 1 f hf hl0 hl1 hc0 (Int.le_refl _) hc1 hspan
   have hwr : writable rb r.line r.col = true :=
     (writable_iff rb _ _).2 ⟨⟨hl0, hl1, hc0, by omega⟩, by rw [h1.1, h1.2.1]; exact h1.2.2.2, hunm⟩
-  refine ⟨haux, hwf1.1, ?_, ?_, ?_⟩
+  refine ⟨haux, hwf1.1, ?_, ?_, ?_, flags_spanStep hwf r.line r.col 1 f hl0 hl1 hc0 (Int.le_refl _) hc1⟩
   · intro l c h0 h1' h2 h3
     by_cases hl : l = r.line
     · subst hl; exact hwf1.2 c h2 h3
@@ -654,7 +667,7 @@ theorem paint1_spec {rb : RB} (hwf : WF rb) (line col : Int) {r : Clipped} (hx :
   have haux : SameAux (rb.updCell r.line r.col g) rb := sameAux_updCell _ _ _ _
   have hwr : writable rb r.line r.col = true :=
     (writable_iff rb _ _).2 ⟨⟨hl0, hl1, hc0, hc1⟩, by rw [h1.1, h1.2.1]; exact h1.2.2.2, hunm⟩
-  refine ⟨haux, ⟨?_, ?_, hwf.clip⟩, ?_, ?_, ?_⟩
+  refine ⟨haux, ⟨?_, ?_, hwf.clip⟩, ?_, ?_, ?_, ⟨rfl, rfl⟩⟩
   · intro l h0 h1'
     exact rowWF_of_shape (fun k => ⟨(hshape l k).1, (hshape l k).2.1⟩) (hwf.rows l h0 h1')
   · intro l c h0 h1' h2 h3
@@ -769,7 +782,7 @@ theorem linecell_spec {rb : RB} (hwf : WF rb) (line col : Int) (bits : Nat) :
             | erase p => simp
             | char p cp => simp)
         exact hsp.congr ((sameAux_updCell _ _ _ _).trans ((sameAux_spanStep _ _ _ _ _).trans (sameAux_spanStep _ _ _ _ _).symm))
-          (fun l c => updCell_updCell_get _ _ _ _ _ _ _)
+          (fun l c => updCell_updCell_get _ _ _ _ _ _ _) ⟨rfl, rfl⟩
       · rw [if_neg hst]
         have hline : ((rb.cells r.line).get r.col).state = .line := by
           by_cases h : ((rb.cells r.line).get r.col).state = .line
@@ -807,6 +820,6 @@ theorem linecell_spec {rb : RB} (hwf : WF rb) (line col : Int) (bits : Nat) :
                 · exact absurd h heq
               rw [this]; rfl)
           exact hp.congr ((sameAux_updCell _ _ _ _).trans ((sameAux_updCell _ _ _ _).trans (sameAux_updCell _ _ _ _).symm))
-            (fun l c => updCell_updCell_get _ _ _ _ _ _ _)
+            (fun l c => updCell_updCell_get _ _ _ _ _ _ _) ⟨rfl, rfl⟩
 
 end Tickit.RBCopy
